@@ -167,6 +167,12 @@ def _gen_case(rng, tier):
     for code in rng.sample([404, 405, 500, 418, 400, 413], rng.choice([0, 0, 1, 2])):
         case['error_handlers'].append([code, rng.choice(['str', 'bytes', 'list', 'empty', 'str', 'bytes', 'list', 'empty', 'cycle'])])
     if rng.random() < 0.08:
+        # an application with a domain map; clients that send no Host header (HTTP/1.0) or an odd one
+        case['domain_map'] = rng.choice(['none', 'none', 'prefix'])
+        case['host'] = rng.choice([None, None, 'sim.test', 'Sim.Test:8080', ''])
+    if rng.random() < 0.1:
+        case['path_suffix'] = rng.choice(['/café', '/€uro', '/日本', '/a b', '/%zz'])     # non-ASCII / odd path segments
+    if rng.random() < 0.08:
         # served by the module-level default application, the handler uses the module-level helpers
         # (static_file / redirect / abort read ombott.request / ombott.response)
         case['use_default'] = True
@@ -501,8 +507,18 @@ def setup_app(case):
                 return _o.HTTPError(code, 'again')     # a response cycle: only the cast loop's guard ends it
             return {'str': f'custom {code}', 'bytes': b'custom', 'list': ['cus', 'tom'], 'empty': ''}[kind]
         app.error(code)(eh)
+    cfg = {}
     if case['result']['k'] == 'read_body':
-        app.setup({'max_body_size': 100})
+        cfg['max_body_size'] = 100
+    if case.get('domain_map'):
+        # 'prefix': requests for host sim.test are served under the application name 'shop'
+        cfg['domain_map'] = (lambda host: None) if case['domain_map'] == 'none' else \
+            (lambda host: 'shop' if host and host.lower().startswith('sim.test') else None)
+        cfg['app_name_header'] = 'HTTP_X_APP_NAME'
+        if case['domain_map'] == 'prefix':
+            app.route('/shop/r/sub', method=route_methods, callback=handler)
+    if cfg:
+        app.setup(cfg)
     return app
 
 
@@ -525,6 +541,9 @@ def serve_and_check(case, app, suffix):
     path = '/nowhere' if case['path'] == 'miss' else '/r/sub'
     if case.get('rewrite') == 'path' and case['path'] != 'miss':
         path = '/alias/of/it'
+    if case.get('path_suffix') and case['path'] == 'miss':
+        # WSGI hands PATH_INFO over as latin-1 decoded bytes
+        path = path + case['path_suffix'].encode('utf8').decode('latin1')
     ctx.app = app
 
     def environ(query, accept_json):
@@ -544,8 +563,14 @@ def serve_and_check(case, app, suffix):
         hdrs = dict(case.get('req_headers') or {})
         if accept_json:
             hdrs['Accept'] = 'application/json'
-        return make_environ(method, path, query + suffix, file_wrapper=(FakeFileWrapper if case['file_wrapper'] else None),
-                            headers=hdrs or None, **kw)
+        env = make_environ(method, path, query + suffix, file_wrapper=(FakeFileWrapper if case['file_wrapper'] else None),
+                           headers=hdrs or None, **kw)
+        if 'host' in case:
+            if case['host'] is None:
+                env.pop('HTTP_HOST', None)
+            else:
+                env['HTTP_HOST'] = case['host']
+        return env
 
     if case['result']['k'] == 'read_body':
         if case.get('prime'):
@@ -722,8 +747,8 @@ def shrink_candidates(case):
     if 'twin' in case:
         yield from twin.shrink_candidates(case, shrink_candidates)
         return
-    for k in ('rewrite', 'oneshot', 'after_adds'):
-        if case.get(k) is not None:
+    for k in ('rewrite', 'oneshot', 'after_adds', 'domain_map', 'path_suffix', 'host'):
+        if case.get(k) is not None or k in case:
             c = dict(case)
             c.pop(k)
             yield c
